@@ -33,7 +33,8 @@ def search(uname, ucfg, diag, binp, tier, repo, build, log):
     spec = per_fn.get(diag.get('fn')) or w.get('default')
     if not spec:
         return dict(found=False, detail=f'no witness search for function {diag.get("fn")}')
-    args = spec['cmd_thorough'] if tier == 'thorough' and spec.get('cmd_thorough') else spec['cmd']
+    args = list(spec['cmd_thorough'] if tier == 'thorough' and spec.get('cmd_thorough') else spec['cmd'])
+    args += diag.get('witness_args') or []
     d, err = _run([binp] + args, timeout=spec.get('timeout', 900))
     if d is None:
         return dict(found=False, detail='witness search failed to run: ' + str(err))
